@@ -100,12 +100,12 @@ package cdi
 //@ pred MountOK(m *cdi.Mount) = m.HostPath != "" && m.ContainerPath != ""
 //@ pred RdtOK(r *cdi.IntelRdt) = len(r.ClosID) < 4096 && r.ClosID != "." && r.ClosID != ".." &&
 //@        noByte(r.ClosID, '/') && noByte(r.ClosID, 10)
-//@ opaque pred EditsOK(c *cdi.ContainerEdits) = EnvOK(c.Env) &&
+//@ opaque pred EditsOK(c cdi.ContainerEdits) = EnvOK(c.Env) &&
 //@        forall(i, 0 <= i && i < len(c.DeviceNodes), c.DeviceNodes[i] != nil && NodeOK(c.DeviceNodes[i])) &&
 //@        forall(i, 0 <= i && i < len(c.Hooks), c.Hooks[i] != nil && HookOK(c.Hooks[i])) &&
 //@        forall(i, 0 <= i && i < len(c.Mounts), c.Mounts[i] != nil && MountOK(c.Mounts[i])) &&
 //@        (c.IntelRdt == nil || RdtOK(c.IntelRdt))
-//@ pred EditsEmpty(c *cdi.ContainerEdits) = len(c.Env) == 0 && len(c.DeviceNodes) == 0 && len(c.Hooks) == 0 &&
+//@ pred EditsEmpty(c cdi.ContainerEdits) = len(c.Env) == 0 && len(c.DeviceNodes) == 0 && len(c.Hooks) == 0 &&
 //@        len(c.Mounts) == 0 && len(c.AdditionalGIDs) == 0 && c.IntelRdt == nil
 
 //@ func ValidateEnv(env []string) (err error)
@@ -143,7 +143,7 @@ package cdi
 //@   pure
 //@   reveal EditsOK
 //@   ensures[C05] implies(e == nil || e.ContainerEdits == nil, err == nil)
-//@   ensures[C05] implies(e != nil && e.ContainerEdits != nil, iff(err == nil, EditsOK(e.ContainerEdits)))
+//@   ensures[C05] implies(e != nil && e.ContainerEdits != nil, iff(err == nil, EditsOK(val(e.ContainerEdits))))
 //@   loop 1 invariant forall(k, 0 <= k && k < #i, #slice[k] != nil && NodeOK(#slice[k]))
 //@   loop 2 invariant forall(k, 0 <= k && k < #i, #slice[k] != nil && HookOK(#slice[k]))
 //@   loop 3 invariant forall(k, 0 <= k && k < #i, #slice[k] != nil && MountOK(#slice[k]))
@@ -151,4 +151,96 @@ package cdi
 //@ func (e *ContainerEdits) isEmpty() (r bool)
 //@   pure
 //@   requires e == nil || e.ContainerEdits != nil
-//@   ensures[C05] r == (e != nil && EditsEmpty(e.ContainerEdits))
+//@   ensures[C05] r == (e != nil && EditsEmpty(val(e.ContainerEdits)))
+
+// ---- accessors (one-line contracts, so that a change to them is noticed at their own postcondition)
+
+//@ func (s *Spec) GetVendor() (r string)
+//@   pure
+//@   requires s != nil
+//@   ensures r == s.vendor
+//@ func (s *Spec) GetClass() (r string)
+//@   pure
+//@   requires s != nil
+//@   ensures r == s.class
+//@ func (s *Spec) GetPath() (r string)
+//@   pure
+//@   requires s != nil
+//@   ensures r == s.path
+//@ func (s *Spec) GetPriority() (r int)
+//@   pure
+//@   requires s != nil
+//@   ensures r == s.priority
+//@ func (d *Device) GetSpec() (r *Spec)
+//@   pure
+//@   requires d != nil
+//@   ensures r == d.spec
+//@ func (d *Device) GetQualifiedName() (r string)
+//@   pure
+//@   requires d != nil && d.Device != nil && d.spec != nil
+//@   ensures r == d.spec.vendor + "/" + d.spec.class + "=" + d.Name
+//@ func (s *Spec) edits() (r *ContainerEdits)
+//@   pure
+//@   requires s != nil && s.Spec != nil
+//@   ensures r != nil && fresh(r) && r.ContainerEdits == &s.ContainerEdits
+//@ func (d *Device) edits() (r *ContainerEdits)
+//@   pure
+//@   requires d != nil && d.Device != nil
+//@   ensures r != nil && fresh(r) && r.ContainerEdits == &d.ContainerEdits
+
+// ---- device and spec admission
+
+//@ opaque pred DeviceOK(d cdi.Device) = DevName(d.Name) && K8sAnnOK(d.Annotations) &&
+//@        !EditsEmpty(d.ContainerEdits) && EditsOK(d.ContainerEdits)
+
+//@ func (d *Device) validate() (err error)
+//@   pure
+//@   reveal DeviceOK
+//@   requires d != nil && d.Device != nil
+//@   ensures[C05] iff(err == nil, DeviceOK(val(d.Device)))
+
+//@ func newDevice(spec *Spec, d cdi.Device) (dev *Device, err error)
+//@   pure
+//@   ensures[C05] implies(err != nil, dev == nil)
+//@   ensures[C05] implies(err == nil, dev != nil && fresh(dev) && dev.spec == spec && dev.Device != nil && fresh(dev.Device) &&
+//@                        dev.Name == d.Name)
+//@   ensures[C05] iff(err == nil, DeviceOK(d))
+
+//@ pred DistinctNames(s *cdi.Spec, n int) = forall(a, 0 <= a && a < n, forall(b, a < b && b < n, s.Devices[a].Name != s.Devices[b].Name))
+//@ pred SpecOK(s *Spec) = VersionOK(s.Spec) && VCName(s.vendor) && VCName(s.class) && K8sAnnOK(s.Annotations) &&
+//@        EditsOK(val(&s.ContainerEdits)) && len(s.Devices) >= 1 &&
+//@        forall(k, 0 <= k && k < len(s.Devices), DeviceOK(val(&s.Devices[k]))) && DistinctNames(s.Spec, len(s.Devices))
+
+//@ func (s *Spec) validate() (devices map[string]*Device, err error)
+//@   pure
+//@   requires s != nil && s.Spec != nil
+//@   ensures[C05] iff(err == nil, old(SpecOK(s)))
+//@   ensures[C05] implies(err == nil, devices != nil && fresh(devices) && len(devices) == len(s.Devices) &&
+//@                        forall(k, 0 <= k && k < len(s.Devices), has(devices, old(s.Devices[k].Name))) &&
+//@                        forall(n, string, has(devices, n), exists(k, 0 <= k && k < len(s.Devices), old(s.Devices[k].Name) == n)))
+//@   loop 1 invariant forall(k, 0 <= k && k < #i, old(DeviceOK(val(&s.Devices[k])))) && old(DistinctNames(s.Spec, #i))
+//@   loop 1 invariant len(devices) == #i && forall(k, 0 <= k && k < #i, has(devices, old(s.Devices[k].Name)))
+//@   loop 1 invariant forall(n, string, has(devices, n), exists(k, 0 <= k && k < #i, old(s.Devices[k].Name) == n))
+
+// ---- newSpec / ReadSpec: admission of a decoded document
+
+// ExtOK: verdict of the pluggable validator (SetSpecValidator), uninterpreted.
+//@ abstract pred ExtOK(raw *cdi.Spec)
+//@ pred KindOK(kind string) = exists(v, string, true, exists(c, string, true, VCName(v) && VCName(c) && kind == v + "/" + c))
+//@ pred RawSpecOK(raw *cdi.Spec) = VersionOK(raw) && KindOK(raw.Kind) && K8sAnnOK(raw.Annotations) &&
+//@        EditsOK(val(&raw.ContainerEdits)) && len(raw.Devices) >= 1 &&
+//@        forall(k, 0 <= k && k < len(raw.Devices), DeviceOK(val(&raw.Devices[k]))) && DistinctNames(raw, len(raw.Devices))
+
+//@ func validateSpec(raw *cdi.Spec) (err error)
+//@   pure
+//@   ensures[C05] iff(err == nil, specValidator == nil || ExtOK(raw))
+
+//@ func newSpec(raw *cdi.Spec, path string, priority int) (spec *Spec, err error)
+//@   pure
+//@   requires raw != nil
+//@   ensures[C05] iff(err == nil, (specValidator == nil || ExtOK(raw)) && old(RawSpecOK(raw)))
+//@   ensures[C05] implies(err != nil, spec == nil)
+//@   ensures[C05,C01] implies(err == nil, spec != nil && fresh(spec) && spec.Spec == raw && spec.priority == priority &&
+//@                        spec.devices != nil && fresh(spec.devices) && len(spec.devices) == len(raw.Devices) &&
+//@                        forall(k, 0 <= k && k < len(raw.Devices), has(spec.devices, old(raw.Devices[k].Name))) &&
+//@                        forall(n, string, has(spec.devices, n), exists(k, 0 <= k && k < len(raw.Devices), old(raw.Devices[k].Name) == n)))
